@@ -862,3 +862,57 @@ Proof.
   rewrite Rcompare_mult_r by apply bpow_gt_0. rewrite Rcompare_IZR.
   unfold num_cmp. rewrite Ha, Hb. reflexivity.
 Qed.
+
+(* ---------- Flocq's binary_normalize under mode_NE is the standard library's SpecFloat.binary_normalize ---------- *)
+(* (SpecFloatLink.v proves Statement 1 against the latter without any axiom; this is the bridge between the two.) *)
+From JB Require SpecFloatLink.
+From Flocq Require Calc.Round.
+
+Lemma flocq_round_aux_NE prec emax s m e l :
+  BinarySingleNaN.binary_round_aux prec emax mode_NE s m e l = SpecFloat.binary_round_aux prec emax s m e l.
+Proof.
+  unfold BinarySingleNaN.binary_round_aux, SpecFloat.binary_round_aux.
+  destruct (SpecFloat.shr_fexp prec emax m e l) as [mrs' e'].
+  assert (Hc : forall mx lx, choice_mode mode_NE s mx lx = SpecFloat.round_nearest_even mx lx).
+  { intros mx lx. unfold choice_mode, Round.cond_incr, Round.round_N, SpecFloat.round_nearest_even.
+    destruct lx as [|[| |]]; try reflexivity. destruct (Z.even mx); reflexivity. }
+  rewrite Hc. destruct (SpecFloat.shr_fexp prec emax _ e' SpecFloat.loc_Exact) as [mrs'' e''].
+  destruct (SpecFloat.shr_m mrs''); reflexivity.
+Qed.
+
+Theorem flocq_binary_normalize_is_specfloat m e szero :
+  BinarySingleNaN.B2SF (BinarySingleNaN.binary_normalize 53 1024 eq_refl eq_refl mode_NE m e szero) =
+  SpecFloat.binary_normalize 53 1024 m e szero.
+Proof.
+  unfold BinarySingleNaN.binary_normalize, SpecFloat.binary_normalize.
+  destruct m as [|p|p]; [reflexivity| |]; rewrite BinarySingleNaN.B2SF_SF2B;
+    unfold BinarySingleNaN.binary_round, SpecFloat.binary_round, BinarySingleNaN.shl_align_fexp;
+    destruct (SpecFloat.shl_align _ _ _) as [mz ez]; apply flocq_round_aux_NE.
+Qed.
+
+Lemma bits_of_b64_SF f :
+  is_nan 53 1024 f = false -> bits_of_b64 f = SpecFloatLink.bits_of_SF64 (B2SF 53 1024 f).
+Proof.
+  destruct f as [s|s|s pl pf|s m e pf]; intros Hn; try discriminate Hn;
+    unfold bits_of_b64, bits_of_binary_float, join_bits, SpecFloatLink.bits_of_SF64; cbn [B2SF];
+    rewrite ?Z.shiftl_mul_pow2 by lia; try reflexivity.
+  change (SpecFloat.emin (52 + 1) (2 ^ (11 - 1))) with (-1074).
+  destruct (0 <=? Z.pos m - 2 ^ 52); [f_equal; f_equal; lia|reflexivity].
+Qed.
+
+Theorem flocq_normalize_bits_specfloat z e szero :
+  bits_of_b64 (binary_normalize 53 1024 eq_refl eq_refl mode_NE z e szero) =
+  SpecFloatLink.bits_of_SF64 (SpecFloat.binary_normalize 53 1024 z e szero).
+Proof.
+  rewrite bits_of_b64_SF by apply is_nan_BSN2B'.
+  rewrite <- B2SF_B2BSN. unfold binary_normalize. rewrite B2BSN_BSN2B'.
+  rewrite flocq_binary_normalize_is_specfloat. reflexivity.
+Qed.
+
+(* second, independent derivation of Statement 1 from the axiom-free SpecFloatLink.round_ne_is_specfloat *)
+Corollary round_ne_is_flocq_binary_normalize_via_specfloat z :
+  - 2 ^ 63 <= z < 2 ^ 64 ->
+  Z.of_N (round_ne z) = bits_of_b64 (binary_normalize 53 1024 eq_refl eq_refl mode_NE z 0 false).
+Proof.
+  intros Hz. rewrite flocq_normalize_bits_specfloat. symmetry. apply SpecFloatLink.round_ne_is_specfloat. exact Hz.
+Qed.
